@@ -11,7 +11,8 @@ EXPLANATION = (
     "comparison chain, the normalising calls applied to its subject and the image of as_str() are "
     "compared; StatusCode::raw is checked to be the injective 3-digit table the variant names stand "
     "for; every value Uri::get_abs_path can return is classified (empty constant / whole URI under "
-    "starts_with('/') / suffix starting where a byte test == '/' succeeded after the 'http://' prefix). "
+    "starts_with('/') / suffix starting where a byte test == '/' succeeded after the 'http://' prefix); "
+    "the string it reads is the URI as given (Uri::new stores its argument unchanged). "
     "This decides the statement for all inputs given the semantics of str::{trim,starts_with,eq}; "
     "it decides these clauses, not run-time behaviour of std."
 )
